@@ -175,8 +175,8 @@ func cliExit(r *Run) {
 	}
 
 	// ---- state ----
-	states := []string{"intact", "repairable", "unrepairable", "no-parity", "damaged-index", "missing-index"}
-	state := states[t.Pick([]int{2, 5, 3, 2, 1, 1}, "state")]
+	states := []string{"intact", "repairable", "unrepairable", "no-parity", "damaged-index", "missing-index", "recovery-subset-lost"}
+	state := states[t.Pick([]int{2, 5, 3, 2, 1, 1, 2}, "state")]
 	r.Probe("state:" + state)
 	recPaths := w.RecoveryPaths()
 	capacity := w.R // recovery blocks (PAR2) / volumes (PAR1)
@@ -264,6 +264,21 @@ func cliExit(r *Run) {
 		if t.Bool(1, 2, "and-damage") {
 			garble(t.Draw(len(w.Files), "which"))
 			state = "no-parity+damaged"
+		}
+	case "recovery-subset-lost":
+		// some (not all) recovery files are gone - e.g. the first one, which
+		// leaves a gap in the numbering - with the data intact or damaged
+		lost := 0
+		for i, p := range recPaths {
+			if lost < len(recPaths)-1 && (i == 0 && t.Bool(1, 2, "lose-first") || t.Bool(1, 3, "lose")) {
+				w.Disk.Remove(p)
+				lost++
+				r.Logf("state: recovery file %s deleted", filepath.Base(p))
+			}
+		}
+		if t.Bool(1, 3, "and-damage") {
+			garble(t.Draw(len(w.Files), "which"))
+			state = "recovery-subset-lost+damaged"
 		}
 	case "damaged-index":
 		b, _ := w.Disk.Get(w.Index)
